@@ -505,7 +505,10 @@ func (g *gen) block(indent, depth, n int, inLoop bool) []interface{} {
 			}
 		case k < 17 && depth > 0 && g.loopd < 2:
 			v := []string{"r1", "r2"}[g.loopd]
-			ln := g.emit(indent, fmt.Sprintf("forRange %s := arr {", v))
+			// arr is an injected slice; za an injected fixed-size array of three elements (often all zero); oz a struct
+			// holding such an array
+			coll := []string{"arr", "arr", "za", "oz.Z"}[g.r.Intn(4)]
+			ln := g.emit(indent, fmt.Sprintf("forRange %s := %s {", v, coll))
 			g.loopd++
 			wasDef := g.def[v]
 			g.def[v] = true
@@ -515,7 +518,7 @@ func (g *gen) block(indent, depth, n int, inLoop bool) []interface{} {
 			g.def[v] = wasDef
 			g.loopd--
 			g.emit(indent, "}")
-			out = append(out, N{"k": "range", "v": v, "coll": "arr", "b": body, "line": ln})
+			out = append(out, N{"k": "range", "v": v, "coll": coll, "b": body, "line": ln})
 			if len(body) == 0 {
 				// the key variable of a loop that ran (arr is never empty) keeps its last value
 				g.tag++
@@ -613,6 +616,7 @@ func (g *gen) block(indent, depth, n int, inLoop bool) []interface{} {
 }
 
 type Obj struct{ A, B, C int64 }
+type ZHolder struct{ Z [3]int64 }
 
 func typed(v interface{}) N {
 	switch x := v.(type) {
@@ -694,6 +698,12 @@ func execCase(s *Session, g *gen, r *rand.Rand, prog []interface{}) []N {
 	dc.Add("obj", o)
 	dc.Add("m", m)
 	dc.Add("arr", arr)
+	za := [3]int64{}
+	if r.Intn(3) == 0 {
+		za[r.Intn(3)] = 4
+	}
+	dc.Add("za", za)
+	dc.Add("oz", &ZHolder{Z: za})
 	dc.Add("ev", func(tag int64, v interface{}) { trace = append(trace, []interface{}{tag, typed(v)}) })
 	rb := builder.NewRuleBuilder(dc)
 	if err := rb.BuildRuleFromString(text); err != nil {
